@@ -288,9 +288,12 @@ def kde_multivariate(events_x, events_y, xout=None, yout=None, bw=None):
         bw = (bin_width_doane(events_x) / 2,
               bin_width_doane(events_y) / 2)
 
-    positions = np.vstack([xout.flatten(), yout.flatten()])
-    estimator_ly = KDEMultivariate(data=[events_x.flatten(),
-                                         events_y.flatten()],
+    # Use the unambiguous (number of points, number of variables) layout.
+    # With the transposed layout, statsmodels cannot tell events and
+    # variables apart if there are exactly two events or two positions.
+    positions = np.column_stack([xout.flatten(), yout.flatten()])
+    estimator_ly = KDEMultivariate(data=np.column_stack([events_x.flatten(),
+                                                         events_y.flatten()]),
                                    var_type='cc', bw=bw)
 
     density = estimator_ly.pdf(positions)
